@@ -94,6 +94,12 @@ func (i Info) Hash(h hash.Hash) string {
 // AppendHash is like Hash except that it appends the output string to the
 // provided byte slice.
 func (i Info) AppendHash(dst []byte, h hash.Hash) []byte {
+	// The slices are shared with the caller's value (which other goroutines may
+	// be hashing at the same time): sort copies.
+	i.Identity = append([]info.Identity(nil), i.Identity...)
+	i.Features = append([]info.Feature(nil), i.Features...)
+	i.Form = append([]form.Data(nil), i.Form...)
+
 	// Hash identities
 	// TODO: does this match RFC 4790 § 9.3?
 	sort.Slice(i.Identity, func(a, b int) bool {
@@ -152,6 +158,7 @@ func (i Info) AppendHash(dst []byte, h hash.Hash) []byte {
 			/* #nosec */
 			io.WriteString(h, "<")
 			vals, _ := infoForm.Raw(f)
+			vals = append([]string(nil), vals...)
 			sort.Strings(vals)
 			for _, val := range vals {
 				/* #nosec */
